@@ -323,6 +323,7 @@ class LockAnalysis:
         self.must_in = {}
         self.may_in = {}
         self.double_unlock = []
+        self.unheld_unlock = []
         self.relock = []
         self._edge_acq = {}   # (block, succ) -> set(keys)
         self._prepare()
@@ -357,6 +358,10 @@ class LockAnalysis:
                 k = self.key_of(ins.args[0])
                 if record and k not in may:
                     self.double_unlock.append(ins)
+                elif record and k not in must:
+                    # held on some of the paths that reach this release only: the others store "unlocked" into a lock they never
+                    # took (and that another thread may be holding)
+                    self.unheld_unlock.append(ins)
                 must = must - {k}
                 may = may - {k}
         return must, may
